@@ -41,6 +41,9 @@ CHECKS = {
  "C08": dict(cat="fault_enumeration", ref="DESIGN.md §6 C08",
    technique="deterministic simulation with fault injection: forged/corrupted datagrams injected at seeded instants into live simulated sessions (twin run without them must agree) plus simulator-executed enumeration of every payload byte string up to 2 (quick) / 3 (thorough) bytes and seeded structure-aware mutations through the real decoder under a panic trap and counting allocator",
    text="The fault is a forged packet. Enumerated part: every byte string up to 3 bytes (thorough; up to 2 plus sampled 3-byte chunks in quick) and millions of structure-aware mutations of real payloads are decoded by the real codec; a panic, an abort (detected in a child process) or an allocation above 16 MiB is a violation. Live part: 10-60 forged datagrams per run (wrong number of statuses, negative start frame, garbage / enumerated / bit-flipped / truncated / wrong-size / double-size payloads on replayed real Input packets, every message kind with a wrong magic, everything from unknown addresses, raw garbage) are injected at seeded instants from the first handshake packet on, also around a peer's death; the session must not panic, and the twin run without the injections must show the same sealed timeline, the same connection events and the same progress."),
+ "C09": dict(cat="exploration", ref="DESIGN.md §6 C09",
+   technique="deterministic simulation with fault injection: seeded runs with desync detection on; fault = consistent divergence of one peer's game from a seeded frame; oracles = zero false alarms, bounded detection latency, checksums in the event are ones the peers really saved",
+   text="False-alarm half: C01's space with detection on (intervals 1..=12, sparse on/off, lossy ChecksumReports) and deterministic games must never produce DesyncDetected - including the schedule behind the 0.11 false positive (a rollback that rewrites a reporting frame in the call that confirms it). Detection half: one peer's game diverges consistently from a seeded frame F; every peer must be told, for a frame >= F and the right address, within 1 s of its confirmed frame passing F + 4 intervals + window + delay, with checksums both sides really computed."),
 }
 NOT_YET = "not claimed at this commit: the check for this property is still under construction (see DESIGN.md §6 for the planned check)"
 NA = {
